@@ -394,16 +394,25 @@ def oracle_search(ctx, hints):
     # shrink the first few
     shrunk = []
     seen = set()
-    for v in out:
+    attempts = {}
+    # shortest histories first; at most two shrink attempts per clause, each with a bounded number of real runs
+    for v in sorted(out, key=lambda v: (len(v.replay["losses"]), v.replay["cfg"])):
         if v.signature.startswith("C14:num_round=1"):
-            shrunk.append(v)
+            if v.signature not in seen:
+                seen.add(v.signature)
+                shrunk.append(v)
             continue
         clause = v.replay["clause"]
+        budget = [300]
 
-        def still(cfg, toks, clause=clause):
+        def still(cfg, toks, clause=clause, budget=budget):
+            if budget[0] <= 0:
+                return False
+            budget[0] -= 1
             r, raw = run_real(cfg, toks)
             return raw is not None and any(c == clause for c, _ in monitor(cfg, toks, raw))
-        if len(shrunk) < 5:
+        if attempts.get(clause, 0) < 2 and sum(attempts.values()) < 6:
+            attempts[clause] = attempts.get(clause, 0) + 1
             cfg, toks = shrink(tuple(v.replay["cfg"]), v.replay["losses"], still)
             r, raw = run_real(cfg, toks)
             vs = [x for x in check_case_oracle(cfg, toks, raw) if x.replay["clause"] == clause]
